@@ -121,6 +121,8 @@ RULE = ("cases = corpus/C10 witnesses + generated workspaces (inheritance forest
         "parameters / locals / fields SPELT LIKE a class or module of the workspace in any letter case (left of a dot, as argument, as plain identifier; the entity's name "
         "itself where nothing hides it), parameters spelt like keywords that are identifiers (type, from, order …), locals / parameters spelt like a method or a field, "
         "dots on operands without a class (native and undeclared types, untyped parameters, undeclared names, procedure and intrinsic results) with complete, partial and no name behind them, "
+        "names declared twice in one scope (forward announcement + definition in one class, announced in an ancestor and defined in a descendant, duplicate fields / constants / locals: "
+        "the latest declaration is the target), const / type / var statements between the statements of a body with references in the same and in other methods, "
         "references re-cased at random) x every identifier occurrence (plain, left of dot, k-th element of a chain, own declared names, type, parent "
         "and uses references incl. the missing entities, names only a body-less method's parameter carries, unresolvable names); one evaluation = one definition request on the real ProjectManager compared with the model and "
         "with the generator's declaration map; distinct_nontrivial = number of distinct non-empty implementation answers")
